@@ -9,6 +9,8 @@
 (*   a file size is [bytes |-> n] or [k |-> k, d |-> d] meaning            *)
 (*   k * unit + d bytes in the unit of the test (d in -1..1; k >= 1 when   *)
 (*   d < 0), whose measure is computed without multiplying.                *)
+(* For the time tests the measured value is the age in whole periods       *)
+(* ([v |-> k]; k < 0: the timestamp lies in the future).                   *)
 (***************************************************************************)
 EXTENDS Util
 
